@@ -5,6 +5,7 @@
 -/
 import Proofs.C17_Lemmas
 import Proofs.C17_Object
+import Proofs.C17_Pairing
 import Mathlib.Algebra.Order.Ring.Abs
 
 namespace Atomman.C17
@@ -352,6 +353,90 @@ theorem strainG_homogeneous (mag : V3 K → K) (cosMax big : K) (c0 c1 : Cell K)
   apply solveG_homogeneous mag cosMax big _ _ ks F hF _ hbest hnd hq _ hrank
   · simpa [nbrVectors] using hlen
   · simpa [nbrVectors] using hne
+
+/-! ### the pairing loop with competing current vectors (any number of them: no hypothesis on `ps`, `qs`) -/
+
+/-- **matchPQ_one_q_per_p.**  After the double loop of `match_pq` no reference vector is paired with two current
+    vectors — for arbitrary lists, however many `q` chose the same `p` (current neighbour list with more shells than
+    the reference set, `theta_max` larger than the angle between shells). -/
+theorem matchPQ_one_q_per_p (mag : V3 K → K) (cosMax big : K) (ps qs : List (V3 K)) :
+    ((qpPairs mag cosMax big ps qs).filterMap (·.2)).Nodup ∧
+    (qpPairs mag cosMax big ps qs).map (·.1) = qs ∧
+    ∀ e ∈ qpPairs mag cosMax big ps qs, e.2 = none ∨ e.2 = bestP mag cosMax e.1 ps :=
+  let h := qpPairs_inv mag cosMax big ps qs
+  ⟨h.nodup, h.keys, h.vals⟩
+
+/-- **matchPQ_winner_closest.**  The `q` a reference vector `ps[a]` ends up paired with chose it (it is its best match
+    inside `θ_max`) and is at least as close to the first-shell radius `r1` as every other `q` that chose `ps[a]`. -/
+theorem matchPQ_winner_closest (mag : V3 K → K) (cosMax big : K) (ps qs : List (V3 K))
+    (e : V3 K × Option Nat) (he : e ∈ qpPairs mag cosMax big ps qs) (a : Nat) (ha : e.2 = some a) :
+    bestP mag cosMax e.1 ps = some a ∧
+    ∀ q' ∈ qs, bestP mag cosMax q' ps = some a →
+      rad mag (shortest mag big ps) e.1 ≤ rad mag (shortest mag big ps) q' := by
+  have h := qpPairs_inv mag cosMax big ps qs
+  refine ⟨?_, ?_⟩
+  · rcases h.vals e he with h1 | h1
+    · rw [h1] at ha; exact absurd ha (by simp)
+    · rw [← h1, ha]
+  · intro q' hq' hb
+    obtain ⟨e', he', hea', hr⟩ := h.best a q' hq' hb
+    have : e' = e := holder_unique _ h.nodup a e' e he' he hea' ha
+    rw [this] at hr
+    exact hr
+
+/-- **matchPQ_claimed_p_paired.**  A reference vector that is the best match of at least one `q` does not stay
+    unpaired (the conflict resolution removes all competitors but one, never all of them). -/
+theorem matchPQ_claimed_p_paired (mag : V3 K → K) (cosMax big : K) (ps qs : List (V3 K)) (a : Nat)
+    (h : ∃ q' ∈ qs, bestP mag cosMax q' ps = some a) :
+    ∃ e ∈ qpPairs mag cosMax big ps qs, e.2 = some a := by
+  obtain ⟨q', hq', hb⟩ := h
+  obtain ⟨e, he, hea, _⟩ := (qpPairs_inv mag cosMax big ps qs).best a q' hq' hb
+  exact ⟨e, he, hea⟩
+
+/-- **solveG_homogeneous_competing.**  `G = F⁻ᵀ` through the real pairing loop WITHOUT the hypothesis that distinct
+    `q` pick distinct `p`: call a current vector *true* (`good`) when it is the image `F p` of its best reference
+    vector.  If every other current vector that finds a reference vector inside `θ_max` competes for it with a true
+    vector strictly closer to the first-shell radius, then all surviving pairs are true pairs and `lstsq` (full rank)
+    returns `F⁻ᵀ` — whatever the number of competitors per reference vector. -/
+theorem solveG_homogeneous_competing (mag : V3 K → K) (cosMax big : K) (ps qs : List (V3 K))
+    (F : M3 K) (hF : M3.det F ≠ 0) (good : V3 K → Prop)
+    (hgood : ∀ q ∈ qs, good q → ∀ a p, bestP mag cosMax q ps = some a → ps[a]? = some p → q = M3.mulVec F p)
+    (hextra : ∀ q ∈ qs, ¬ good q → ∀ a, bestP mag cosMax q ps = some a →
+      ∃ t ∈ qs, good t ∧ bestP mag cosMax t ps = some a ∧
+        rad mag (shortest mag big ps) t < rad mag (shortest mag big ps) q)
+    (hne : matchPQ mag cosMax big ps qs ≠ [])
+    (hrank : M3.det (qtq (matchPQ mag cosMax big ps qs)) ≠ 0) :
+    solveG mag cosMax big ps qs = M3.inv F.transpose := by
+  have hinv := qpPairs_inv mag cosMax big ps qs
+  have hne' : (matchPQ mag cosMax big ps qs).isEmpty = false := by
+    cases hm : matchPQ mag cosMax big ps qs with
+    | nil => exact absurd hm hne
+    | cons a l => rfl
+  unfold solveG
+  simp only [hne', Bool.false_eq_true, if_false]
+  apply G_homogeneous F hF _ _ hrank
+  intro pr hpr
+  unfold matchPQ at hpr
+  obtain ⟨e, he, hm⟩ := List.mem_filterMap.mp hpr
+  cases ha : e.2 with
+  | none => simp [ha] at hm
+  | some a =>
+    simp only [ha] at hm
+    cases hp : ps[a]? with
+    | none => simp [hp] at hm
+    | some p =>
+      simp only [hp, Option.map_some, Option.some.injEq] at hm
+      rw [← hm]
+      simp only
+      obtain ⟨hb, hw⟩ := matchPQ_winner_closest mag cosMax big ps qs e he a ha
+      have heq : e.1 ∈ qs := by
+        have := hinv.keys
+        rw [← this]
+        exact List.mem_map_of_mem he
+      by_cases hg : good e.1
+      · exact hgood e.1 heq hg a p hb hp
+      · obtain ⟨t, ht, _, htb, hlt⟩ := hextra e.1 heq hg a hb
+        exact absurd (hw t ht htb) (not_le.mpr hlt)
 
 /-- ... hence strain, rotation and the invariants are those of `F⁻ᵀ` at every such atom. -/
 theorem measures_homogeneous (G F : M3 K) (h : G = M3.inv F.transpose) :
@@ -734,6 +819,39 @@ example :
       [⟨5, 0, 0⟩, ⟨0, 5, 0⟩] [⟨10, 0, 0⟩, ⟨5, 0, 0⟩, ⟨3, 4, 0⟩, ⟨0, 10, 0⟩]).map (·.2)
       = [none, some 0, none, some 1] := by
   decide +kernel
+
+/-- three (and four) current vectors competing for ONE reference vector, listed so that each later one wins: the
+    pairing ends with a single pair (the vector closest to `r1 = 5`), the hypotheses of
+    `solveG_homogeneous_competing` hold for the stretch `F = diag(11/10, 1, 1)` (true images `F p`, foreign vectors
+    of 2x / 3x the length along the same direction), and `G = F⁻ᵀ`. -/
+def exMag1 : V3 ℚ → ℚ := fun v => absK v.x + absK v.y + absK v.z
+def exPs3 : List (V3 ℚ) := [⟨5, 0, 0⟩, ⟨0, 5, 0⟩, ⟨0, 0, 5⟩]
+def exF3 : M3 ℚ := ⟨⟨11/10, 0, 0⟩, ⟨0, 1, 0⟩, ⟨0, 0, 1⟩⟩
+def exQs3 : List (V3 ℚ) := [⟨33/2, 0, 0⟩, ⟨11, 0, 0⟩, ⟨0, 5, 0⟩, ⟨11/2, 0, 0⟩, ⟨0, 0, 5⟩, ⟨0, 0, 10⟩, ⟨22, 0, 0⟩]
+def exImg3 : List (V3 ℚ) := exPs3.map (M3.mulVec exF3)
+def exGood3 (q : V3 ℚ) : Bool := exImg3.contains q
+example :
+    (qpPairs exMag1 (891/1000) 10000000000000000 exPs3 exQs3).map (·.2)
+      = [none, none, some 1, some 0, some 2, none, none] ∧
+    solveG exMag1 (891/1000) 10000000000000000 exPs3 exQs3 = M3.inv exF3.transpose := by
+  refine ⟨by decide +kernel, ?_⟩
+  have h1 : ∀ q ∈ exQs3, exGood3 q = true → ∀ a ∈ List.range 3, ∀ p ∈ exPs3,
+      bestP exMag1 (891/1000) q exPs3 = some a → exPs3[a]? = some p → q = M3.mulVec exF3 p := by decide +kernel
+  have h2 : ∀ q ∈ exQs3, ¬ exGood3 q = true → ∀ a ∈ List.range 3, bestP exMag1 (891/1000) q exPs3 = some a →
+      ∃ t ∈ exQs3, exGood3 t = true ∧ bestP exMag1 (891/1000) t exPs3 = some a ∧
+        rad exMag1 (shortest exMag1 10000000000000000 exPs3) t < rad exMag1 (shortest exMag1 10000000000000000 exPs3) q := by
+    decide +kernel
+  have h3 : ∀ q ∈ exQs3, ∀ a, bestP exMag1 (891/1000) q exPs3 = some a → a ∈ List.range 3 := by
+    have : ∀ q ∈ exQs3, ∀ a ∈ (bestP exMag1 (891/1000) q exPs3).toList, a ∈ List.range 3 := by decide +kernel
+    intro q hq a hb
+    exact this q hq a (by rw [hb]; simp)
+  apply solveG_homogeneous_competing exMag1 _ _ exPs3 exQs3 exF3 (by decide +kernel) (fun q => exGood3 q = true)
+  · intro q hq hg a p hb hp
+    exact h1 q hq hg a (h3 q hq a hb) p (List.mem_of_getElem? hp) hb hp
+  · intro q hq hg a hb
+    exact h2 q hq hg a (h3 q hq a hb) hb
+  · decide +kernel
+  · decide +kernel
 
 /-- hypothesis of `nye_zero` / the general case: a constant field gives zero, a varying one does not. -/
 example :
